@@ -163,16 +163,18 @@ def run(ctx, spec):
     c01_mempool.run(ctx)
 
 
-def c01_4(ctx):
-    R = "C01.4"
+def c01_4(ctx, R="C01.4", only=None):
     b, regs = RG.variant_regions(ctx.fb)
     if b is None or regs is None:
         return ctx.missing(R, "parse_conditions", "cannot locate the `match cva` dispatch / loop head")
     ctx.touched(b.path)
-    ctx.ob(R, "exhaustive", regs.pop("__otherwise_unreachable__", False), "the match over Condition has no fall-through arm")
+    if only is None:
+        ctx.ob(R, "exhaustive", regs.pop("__otherwise_unreachable__", False), "the match over Condition has no fall-through arm")
     T = effect_table()
     n = 0
     for variant, exp in sorted(T.items()):
+        if only is not None and variant not in only:
+            continue
         if variant not in regs:
             ctx.missing(R, "variant:" + variant, "no arm for this variant")
             continue
@@ -187,6 +189,9 @@ def c01_4(ctx):
                "effects of %s differ from its row of the effect table" % variant, where=b.fn.sp, found=found)
         if variant in ("AssertSecondsRelative", "CreateCoin"):
             ctx.sample({"rule": R, "variant": variant, "paths": [_fmt(p) for p in sorted(got, key=str)][:3]})
+    if only is not None:
+        ctx.floor(R, "selected condition variants with an effect row", n, len(only))
+        return
     ctx.floor(R, "condition variants with an effect row", n, 28)
     handled = set(T) | set(AGGSIG)
     ctx.ob(R, "all-variants-covered", set(regs) <= handled, "every Condition variant has an effect row (or an AGG_SIG recipe, C05)",
